@@ -59,7 +59,33 @@ def check_assignment(P, R):
         R.check(bool(divs), "DEP.kmeans-mean", m.key, f"centroids = {src(means)}", "sum / count", "centroids are not a quotient of accumulated sums and counts", r.lineno)
 
 
+def check_cluster_masks(P, R, rule="IDX.mask-eq"):
+    """The samples summed into cluster i's statistics are those whose nearest-centroid index *equals* i."""
+    n = 0
+    for key in ("kmeans:e_step", "kmeans:accumulate_indices_means_vars"):
+        f = P.func(key)
+        du = get_defuse(f, P)
+        for sub_ in [x for x in walk_no_nested(f.node) if isinstance(x, ast.Subscript) and isinstance(x.slice, ast.Compare)]:
+            c = cone(du, sub_.slice.left, du.stmt_of(sub_), interproc=False)
+            if not c.calls_any("argmin") and not any(x.endswith("get_closest_centroid_index") for x in c.calls):
+                continue
+            n += 1
+            cmp_ = sub_.slice
+            idx = cmp_.comparators[0]
+            loopvar = isinstance(idx, ast.Name) and any(isinstance(p_, ast.For) and isinstance(p_.target, ast.Name) and p_.target.id == idx.id for p_ in _parents(sub_))
+            R.check(isinstance(cmp_.ops[0], ast.Eq) and loopvar, rule, key, src(sub_)[:60], "samples assigned to the cluster being accumulated", f"cluster statistics are accumulated over `{src(cmp_)}`, not over the samples whose nearest centroid *is* the cluster", sub_.lineno)
+    R.floor(rule, n, 3)
+
+
+def _parents(n):
+    p = getattr(n, "_parent", None)
+    while p is not None:
+        yield p
+        p = getattr(p, "_parent", None)
+
+
 def run(P, R, tier):
+    check_cluster_masks(P, R)
     F = loopeng.analyse(P, R, FIT, "max_iter", "convergence_threshold", ("m_step",))
     if F is not None:
         n = loopeng.check_criterion_source(P, R, F, FIT, ("m_step",))
